@@ -122,10 +122,12 @@ def _helper_src():
     out.append("(defn try* [thunk tid] (try (thunk) (catch python/Exception _ (caught! tid))))")
     out.append('(defn throw* [] (throw (ex-info "boom" {})))')
     out.append("(defn fut* [thunk] (future (thunk)))")
+    out.append("(defn late-fut* [m thunk] (let [gate (promise) f (with-bindings m (future (deref gate) (thunk)))] "
+               "(deliver gate true) (deref f)))")
     out.append("(defn bf* [thunk] (bound-fn [] (thunk)))")
     out.append("(defn pmap* [thunk n] (doall (pmap (fn [_i] (thunk)) (range n))))")
     out.append("(defn probe* [id] (probe! id (pstart!) *a* *b* *c*))")
-    names += ["wb*", "pyb*", "try*", "throw*", "fut*", "bf*", "pmap*", "probe*"]
+    names += ["wb*", "pyb*", "try*", "throw*", "fut*", "late-fut*", "bf*", "pmap*", "probe*"]
     return " ".join(out), names
 
 
@@ -178,6 +180,8 @@ class Interp:
             fut = _fns["fut*"](lambda: self.block(n[1]))
             self.block(n[2])
             _fns["deref"](fut)
+        elif t == "latefut":
+            _fns["late-fut*"](self._map(n[1], None), lambda: self.block(n[2]))
         elif t == "boundfn":
             _run_thread(_fns["bf*"](lambda: self.block(n[1])))
         elif t == "bflocal":
@@ -298,6 +302,12 @@ class _Gen:
                 after = self.block(depth + 1, bound, ctx, budget) if rng.random() < 0.4 else []
                 out.append(["future", body, after])
                 out.append(["probe", self.nid()])
+            elif r < 0.845 and not ctx.get("in_pool") and depth < 4:
+                vs = rng.sample(M.VARS, rng.choice([1, 2]))
+                ctx2 = dict(ctx, fdepth=ctx["fdepth"] + 1, child=True, in_pool=True)
+                out.append(["latefut", [[v, self.nval()] for v in vs],
+                            [["probe", self.nid()]] + self.block(depth + 1, set(bound) | set(vs), ctx2, budget)])
+                out.append(["probe", self.nid()])
             elif r < 0.87 and ctx["fdepth"] < 2 and depth < 4:
                 ctx2 = dict(ctx, fdepth=ctx["fdepth"] + 1, child=True)
                 out.append(["boundfn", [["probe", self.nid()]] + self.block(depth + 1, set(bound), ctx2, budget)])
@@ -388,7 +398,7 @@ def _shrink_nodes(nodes):
     for i, n in enumerate(nodes):
         t = n[0]
         bodies = {"binding": [3], "try": [2], "future": [1, 2], "boundfn": [1], "pmap": [2],
-                  "bflocal": [1, 2]}.get(t, [])
+                  "bflocal": [1, 2], "latefut": [2]}.get(t, [])
         for bi in bodies:
             for sb in _shrink_nodes(n[bi]):
                 m = copy.deepcopy(n)
@@ -479,6 +489,9 @@ def _count_faults(nodes, acc):
         elif t in ("boundfn",):
             acc["children"] = acc.get("children", 0) + 1
             _count_faults(n[1], acc)
+        elif t == "latefut":
+            acc["children"] = acc.get("children", 0) + 1
+            _count_faults(n[2], acc)
         elif t == "bflocal":
             acc["children"] = acc.get("children", 0) + 1
             _count_faults(n[1], acc)
